@@ -202,7 +202,9 @@ var c06Atoms = []c06AtomClass{
 	{"empty", []string{""}},
 	{"nonascii_letter", []string{"é", "λ", "日", "日本語", "éa", "aé", "λx", "ñandú", "ß", "ж", "א", "ʰ", "É", "Éa", "Λ", "aΛ", "ǅ", "ǅa"}},
 	{"nonascii_other", []string{"€", "😀", "\u00a0", "a\u00a0b", "×", "→", "٣", "²", "a\u0301", "\u0301", "\u200b", "\u2028", "\u0085", "\u3000",
-		"\ufeff", "\U0010ffff", "«»", "a😀", "😀a", "\u00ad", "…", "§", "¬", "\ufffd", "a\ufffdb"}},
+		"\ufeff", "\U0010ffff", "«»", "a😀", "😀a", "\u00ad", "…", "§", "¬", "\ufffd", "a\ufffdb",
+		// characters this implementation counts as graphic (the mathematical operator blocks) inside atoms that need quotes
+		"a∀", "∀a", "x ⊕ y", "X⨀", "∀ ", "⊕1", "é∀", "∀'", "a⊕b", "⨀ ⨀"}},
 }
 
 // c06Plain reports whether the atom is written without quotes by any ISO writer: an ASCII letter-digit
